@@ -162,7 +162,8 @@ func transactOnConn(ctx context.Context, conn *sql.DB, b beginnable, fn func(con
 			}
 		} else if err != nil {
 			if e := tx.Rollback(); e != nil {
-				err = fmt.Errorf("事务失败了：%s，回滚也失败了：%w", err, e)
+				// 两个错误都用 %w：调用方仍可用 errors.Is/As 识别 fn 返回的错误。
+				err = fmt.Errorf("事务失败了：%w，回滚也失败了：%w", err, e)
 			}
 		} else {
 			err = tx.Commit()
